@@ -540,3 +540,36 @@ m('C14', 'layered: conductivity without backward', MP,
 n('C14', 'MapResistivity: chain factor rewritten', MAPS,
   "        gradient *= -self.backward(mapped)**2",
   "        gradient *= -1.0/(mapped*mapped)")
+
+# ------------------------------------------------------------------- C07
+m('C07', 'gradient: property_y <-> property_z at a chain site', SIMS,
+  "                        gradient[1, ...], self.model.property_y)",
+  "                        gradient[1, ...], self.model.property_z)", 'C07.CH')
+m('C07', 'gradient: fold of z into x removed', SIMS,
+  "                gradient[0, ...] += gradient[2, ...]", "                pass",
+  'C07.TA')
+m('C07', 'gradient: HTI treated like VTI', SIMS,
+  "            if self.model.case in ['HTI', 'triaxial']:\n                self.model.map.derivative_chain(\n                        gradient[1, ...], self.model.property_y)",
+  "            if self.model.case in ['VTI', 'triaxial']:\n                self.model.map.derivative_chain(\n                        gradient[1, ...], self.model.property_y)",
+  'C07')
+m('C07', 'scatter: /4 -> /2 in one store', MAPS,
+  "                    ox[ix, iyp, izm] += volumes[ix, iyp, izm]*ex[ix, iy, iz]/4",
+  "                    ox[ix, iyp, izm] += volumes[ix, iyp, izm]*ex[ix, iy, iz]/2",
+  'C07.G1')
+m('C07', 'scatter: volume of the neighbouring cell', MAPS,
+  "                    ox[ix, iyp, izm] += volumes[ix, iyp, izm]*ex[ix, iy, iz]/4",
+  "                    ox[ix, iyp, izm] += volumes[ix, iym, izm]*ex[ix, iy, iz]/4",
+  'C07.G1')
+m('C07', 'adjoint source classes swapped', ELEC,
+  "    _adjoint_source = TxElectricPoint", "    _adjoint_source = TxMagneticPoint",
+  'C07.AS')
+m('C07', '_get_rfield: NaN guard removed', SIMS,
+  "            if np.isnan(residual[i]):\n                continue\n", "", 'C07.AS')
+m('C07', '_get_rfield: weight not applied', SIMS,
+  "strength = np.conj(residual * weight / -rfield.smu0)",
+  "strength = np.conj(residual / -rfield.smu0)", 'C07.AS')
+m('C07', 'gradient integrand without smu0', SIMS,
+  "bfield.field*efield.smu0*efield.field", "bfield.field*efield.field", 'C07.G1')
+m('C07', 'amat_x: eta enters with 0.5 (operator/gradient mismatch)', CORE,
+  "rx[ix, iy, iz] -= 0.5*rrx - 0.25*stx*ex[ix, iy, iz]",
+  "rx[ix, iy, iz] -= 0.5*rrx - 0.5*stx*ex[ix, iy, iz]", 'C07.G1')
